@@ -15,7 +15,7 @@ RULE = (
     "max(5e-7, 2*u_row), u_row = written precision of the row's own non-integer coefficients; (b) atomic symbols "
     "that are an SI prefix + registered symbol and whose registered name starts with the prefix name: slope(row) "
     "against 10**k*slope(base). (c) the Scalar form: Scalar(x,row) and the product/quotient of component Scalars "
-    "have the same base magnitude (left to right, N/D, N*(1/D), (1/D)*N, powers written with **), x Hypothesis-generated; before the sweep a project database that gives shipped symbols other sizes matches them under exponents (nothing it learns may reach another database). Every decomposable row is non-trivial (it relates >= 2 "
+    "have the same base magnitude (left to right, N/D, N*(1/D), (1/D)*N, powers written with **), x Hypothesis-generated; before the sweep a project database that gives shipped symbols other sizes matches them under exponents (nothing it learns may reach another database) and some rows are offered for registration once more with other factors (refused); a composition with an offset unit under an exponent other than 1, divided by its twin written with the base unit (either order), is the pure ratio of the unit sizes. Every decomposable row is non-trivial (it relates >= 2 "
     "table rows); distinct key = row symbol."
 )
 ASSUMPTIONS = [
@@ -180,6 +180,28 @@ class Checker:
                 else:
                     P = (1.0 / f) if P is None else P / f
             forms.append(("powers by **", P * (x * k)))
+        # a component with an offset (degC, degF, a gauge pressure) counts by its size only inside a compound unit: the
+        # composition divided by its twin written with the base unit of that quantity type (K, Pa) is the pure ratio of
+        # sizes raised to the exponent - in both orders of division
+        # (with exponent 1 an offset unit is converted with its offset, as in a sum: those rows are left out)
+        if any(um.offset[u] != 0 for _c, u, _e in comp) and all(e != 1 for _c, u, e in comp if um.offset[u] != 0):
+            twin = None
+            want_ratio = 1.0
+            for coef, u, e in comp:
+                bu = um.base[um.qt[u]] if um.offset[u] != 0 else u
+                if bu != u:
+                    want_ratio *= (um.slope[u] / um.slope[bu]) ** e
+                f = Scalar(1.0, bu)
+                for _ in range(abs(e)):
+                    if e > 0:
+                        twin = f if twin is None else twin * f
+                    else:
+                        twin = (1.0 / f) if twin is None else twin / f
+            for what, r, want in (("composition / twin", acc / twin, want_ratio), ("twin / composition", twin / acc, 1.0 / want_ratio)):
+                ctx.ev()
+                if r.GetUnit() != "" or abs(r.GetValue() / want - 1) > 1e-9:
+                    ctx.record("composition_with_offset_unit_against_base_unit_twin:%s" % sym, {"sym": sym, "kind": "scalar_form", "reading": [list(c) for c in comp], "x": x}, "%s for %r: %r, expected the dimensionless ratio %r" % (what, sym, r, want))
+            ctx.cls("offset_component_twin_checked")
         ma = mag_of(um, a.GetQuantity(), a.GetValue())
         tol = max(FLOOR, 2 * u_row(info)) + 1e-9
         # a composition that is one unit raised to an exponent (1/ft, ft2, 1/bbl ...) can be re-expressed through the
@@ -235,6 +257,11 @@ def run_shard(spec, ctx):
     ctx.cls("decoy_database_matched_units_first")
     db = env.new_db("posc")
     with env.pushed(db):
+        # some rows are offered for registration once more with other factors (refused: nothing changes)
+        again = [u for u in sorted(db.unit_to_unit_info) if "/" in u or u[-1:].isdigit()][spec.get("shard", 0) :: 7][:40] + ["ft/s", "kPa", "Mm", "lbm/ft3"]
+        for sym in env.refused_reregistrations(db, again):
+            ctx.record("duplicate_unit_registration_accepted:%s" % sym, {"kind": "reregistration", "sym": sym}, "AddUnit for the existing symbol %r was accepted" % sym)
+        ctx.cls("refused_reregistrations_first", len(again))
         ch = Checker(ctx, db)
         ok_rows = []
         n_out = 0
@@ -271,6 +298,10 @@ def replay(case, ctx):
     _decoy_arithmetic()
     db = env.new_db("posc")
     with env.pushed(db):
+        if case.get("kind") == "reregistration":
+            acc = env.refused_reregistrations(db, [case["sym"]])
+            return ["AddUnit for the existing symbol %r was accepted" % s for s in acc]
+        env.refused_reregistrations(db, [case.get("sym", "ft/s"), "ft/s", "kPa"])
         ch = Checker(ctx, db)
         if case["kind"] == "grammar":
             ch.check_grammar_row(case["sym"])
